@@ -217,7 +217,7 @@ def policy_clauses(prog, arg):
         d = {"policy": policy, "hours": {p: (mval(m, U.hinfo[p][1]) if mval(m, U.hinfo[p][0]) else None) for p in SIX},
              "recomputed": {p: (mval(m, U.rinfo[p][1]) if mval(m, U.rinfo[p][0]) else None) for p in SIX},
              "angF": mval(m, U.angF), "angI": mval(m, U.angI), "intF": mval(m, U.intF), "intI": mval(m, U.intI),
-             "near_lat": mval(m, U.near_lat), "ordinal": mval(m, U.jd_ord),
+             "near_lat": mval(m, U.near_lat), "ordinal": mval(m, U.jd_ord), "lat": mval(m, U.lat), "lon": mval(m, U.lon),
              "mins": {p: mval(m, v) for p, v in U.mins.items()}}
         return d
     outs = run_adj(U, params)
@@ -334,6 +334,9 @@ def policy_clauses(prog, arg):
                         target = e
                     else:
                         target = z3.If(on, shift, e)
+                    if val[p] is None:     # this path leaves the time Err: a violation wherever the policy must replace it
+                        neg.append(("%s is missing although the policy formula defines it" % p, replaced))
+                        continue
                     neg.append(("%s does not follow the policy formula within 3 s / is not flagged" % p,
                                 z3.And(replaced, z3.Not(z3.And(okz[p], close(val[p], target), to_z3(ext[p]))))))
             if policy.startswith("NearestLatitude"):
